@@ -407,7 +407,11 @@ impl<T: Copy> Buffer<T> {
         let newpos = (s.rpos + n) % s.capacity();
         use std::ops::Bound::{Excluded, Included};
 
-        let keys: Vec<TagPos> = if newpos > s.rpos {
+        let keys: Vec<TagPos> = if n == 0 {
+            // Nothing consumed, so no tags to discard. Without this,
+            // `newpos == rpos` is taken for a full wrap and drops all tags.
+            Vec::new()
+        } else if newpos > s.rpos {
             s.tags
                 .range((Included(s.rpos), Excluded(newpos)))
                 .map(|(k, _)| *k)
